@@ -53,6 +53,18 @@ claim("C15", "model_checking", "SEQ", "explicit-state BFS to closure over bucket
       "Chain states over a 13-key universe built to collide and to hit the integer-conversion edges, <= 3 (quick) / 4 live keys x 3 values; every insert/remove/lookup/keys/values/"
       "lookup_by_value in every state vs an assoc array; every list content up to length 5 (8) x every op vs an array; UB is decided by the sanitizers.", "trusted: gcc UBSan/ASan; white-box chain dump by #including phashtable.c", "5 C15")
 
+claim("C11", "exploration", "SEQ", "bounded-exhaustive enumeration of update chunkings and call sequences against an independent implementation (GNU nettle)",
+      "Per algorithm every (bytes buffered, chunk length) pair up to 2B+1, every three-way split around block boundaries, every call sequence up to depth 6 (7) over update/reset/get_string/"
+      "get_digest (exact and short buffer), four content classes (position-coded, all-ff, all-00, ff-fe) to drive carry chains; thorough adds single updates of 2^32+r bytes and a 2^32-crossing stream.",
+      "trusted: GNU nettle as the implementation of the standards; gcc ASan/UBSan. Message content is not enumerated beyond the four classes.", "5 C11")
+claim("C16", "exploration", "SEQ", "bounded-exhaustive enumeration of file contents (all short byte strings; all files of <= N documented line kinds) vs a reference parser",
+      "Robustness over every byte string up to length 5 (6) on an 18-symbol critical alphabet plus line-length families around 1024/2048; grammar conformance over every file of <= 3 (4) lines "
+      "from 25 line kinds with/without BOM against a reference parser written from pinifile.h; all getters and defaults.",
+      "trusted: the reference parser (harness/ini_enum.c, ~40 lines), gcc ASan/UBSan. Repeated/blank section names and over-long lines are robustness-only.", "5 C16")
+claim("C17", "exploration", "SEQ", "bounded-exhaustive enumeration of addresses, ports, strings and buffer lengths vs the platform resolver functions",
+      "Boundary-class IPv4 exhaustively (all 2^32 in thorough), all ports, structured IPv6 with flow/scope, every string up to length 6 (7) over an address alphabet, every native length 0..40 on "
+      "exact-size heap blocks under ASan; oracle = inet_pton/inet_ntop/getaddrinfo of this platform.", "trusted: glibc's inet_pton/inet_ntop/getaddrinfo; gcc ASan.", "5 C17")
+
 PENDING_REASON = "engine for this property is not finished in the committed tree yet (see DESIGN.md section 9); not served by a weaker technique meanwhile"
 
 
